@@ -118,6 +118,11 @@ class AbstractAst:
         if self.spec is None:
             raise RTAMTException('STL specification if empty')
 
+        # parsing again (e.g. after the text was edited) replaces the requirements
+        # of the previous parse instead of adding to them
+        self.specs = []
+        self.var_subspec_dict = dict()
+
         #TODO How to handle sub-formulas?
         entire_spec = self.modular_spec + self.spec
         
